@@ -884,7 +884,11 @@ pub struct Prepared {
 
 /// build the instance and its estimated-time networks; `None` when construction did not succeed
 pub fn prepare(ctx: &mut Ctx, rng: &mut Rng, max_trains: usize) -> Option<Prepared> {
-    let mut inst = gd::instance(rng, max_trains)?;
+    prepare_family(ctx, rng, max_trains, false)
+}
+
+pub fn prepare_family(ctx: &mut Ctx, rng: &mut Rng, max_trains: usize, congested: bool) -> Option<Prepared> {
+    let mut inst = gd::instance_family(rng, max_trains, congested)?;
     let info = inst_json(&inst);
     let mut nets: Vec<EstTimeNet> = vec![];
     let mut keep = vec![];
@@ -1038,7 +1042,13 @@ pub fn run_dispatch_case(ctx: &mut Ctx, rng: &mut Rng, _t: bool) {
         return;
     }
     let max_trains = *rng.pick(&[1usize, 2, 3, 4, 6, 8, 12, 16]);
-    let pr = match prepare(ctx, rng, max_trains) {
+    // an eighth of the cases: the congested family (long trains, short sidings, alternating directions) - about
+    // four times as many rewinds per run as the general family
+    let congested = ctx.case % 8 == 3 || std::env::var("VERIF_DISP_FAMILY").is_ok();
+    if congested {
+        ctx.count("obs.congested_family_cases");
+    }
+    let pr = match prepare_family(ctx, rng, max_trains, congested) {
         Some(p) => p,
         None => {
             ctx.count("gen.no_instance");
